@@ -29,6 +29,7 @@ var properties = map[string][]harnessSpec{
 		{Name: "note.VerifC15SemitoneUnbounded", Solver: "cvc5-int", Marks: end, MustTerminate: true},
 	},
 	"C01": {
+		{Name: "cmd.VerifC01FlagOverride", Marks: end},
 		{Name: "play.VerifC01Pitch", Quick: map[string]int{"C01.mode": 1, "C01.maxDegree": 15}, Thorough: map[string]int{"C01.mode": 0, "C01.maxDegree": 15}, Marks: []string{"end", "rejected", "same-order"}},
 		{Name: "play.VerifC01Pitch", Quick: map[string]int{"C01.mode": 2, "C01.maxDegree": 8}, Thorough: map[string]int{"C01.mode": 2, "C01.maxDegree": 22}, Marks: []string{"end", "rejected"}},
 	},
@@ -67,6 +68,8 @@ var properties = map[string][]harnessSpec{
 		{Name: "note.VerifC15SemitoneUnbounded", Solver: "cvc5-int", Marks: end, MustTerminate: true},
 		{Name: "play.VerifC09WriteNoPanic", Quick: map[string]int{"C09.maxInstances": 1}, Thorough: map[string]int{"C09.maxInstances": 2}, Marks: []string{"end", "refused", "played"}},
 		{Name: "chord.VerifC16UserDict", Quick: map[string]int{"C16.maxUser": 2}, Thorough: map[string]int{"C16.maxUser": 3}, Marks: []string{"end", "rejected", "accepted"}, MustTerminate: true},
+		{Name: "cmd.VerifC09MainExit", Marks: end},
+		{Name: "cmd.VerifC09WriteConv", Marks: []string{"end", "converted", "refused"}},
 	},
 	"C16": {
 		{Name: "chord.VerifC16Builtins", Marks: end},
@@ -85,6 +88,22 @@ var properties = map[string][]harnessSpec{
 		{Name: "astconv.VerifC11LeadingZeros", Quick: map[string]int{"C11.digits": 2}, Thorough: map[string]int{"C11.digits": 4}, Marks: []string{"end", "converted"}},
 		{Name: "astconv.VerifC11Accidental", Marks: []string{"end", "honoured", "not-an-accidental"}},
 	},
+	"C10": {
+		{Name: "note.VerifC10DegreeCodec", Quick: map[string]int{"C10.maxNumber": 99}, Thorough: map[string]int{"C10.maxNumber": 999}, Marks: end},
+		{Name: "op.VerifC10KeyCodec", Marks: end},
+		{Name: "op.VerifC10ScalarCodecs", Solver: "cvc5-int", Quick: map[string]int{"C10.maxNumber": 99}, Thorough: map[string]int{"C10.maxNumber": 999}, Marks: end},
+		{Name: "input.VerifC10Instance", Solver: "cvc5-int", Quick: map[string]int{"C10.degrees": 2, "C10.symbols": 2, "C10.maxValues": 1, "C10.maxText": 1}, Thorough: map[string]int{"C10.degrees": 5, "C10.symbols": 4, "C10.maxValues": 2, "C10.maxText": 2}, Marks: end},
+		{Name: "cmd.VerifC10WriteConvPipe", Marks: end},
+	},
+	"C12": {
+		{Name: "op.VerifC12AllScalesOrder", Marks: end},
+		{Name: "note.VerifC12SemitoneOrder", Marks: end},
+		{Name: "cmd.VerifC12KeyConvOutput", Marks: end},
+		{Name: "cmd.VerifC12KeyListOutput", Marks: end},
+		{Name: "cmd.VerifC12IOPaths", Marks: []string{"end", "failed", "printed"}},
+		{Name: "astconv.VerifC05Classifier", Quick: map[string]int{"C05.maxChords": 2, "C05.preemptions": 1}, Thorough: map[string]int{"C05.maxChords": 3, "C05.preemptions": 2}, Marks: []string{"end", "classified", "refused"}},
+		{Name: "op.VerifC14Chain", Quick: map[string]int{"C14.maxLen": 2}, Thorough: map[string]int{"C14.maxLen": 3}, Marks: end},
+	},
 	"C17": {
 		{Name: "desc.VerifC17Diatonic", Marks: end},
 	},
@@ -98,7 +117,7 @@ var properties = map[string][]harnessSpec{
 }
 
 func init() {
-	for _, id := range []string{"C08", "C10", "C12"} {
+	for _, id := range []string{"C08"} {
 		notApplicable[id] = "check not built yet in this session (work in progress; see DESIGN.md section 4 for the plan)"
 	}
 }
